@@ -185,6 +185,20 @@ pub fn gen_cfg(id: &str, tier: Tier, variant: u64) -> GenCfg {
     let big = tier == Tier::Thorough;
     let ops = if big { 90 } else { 36 };
     let mut g = match id {
+        // make_mut / decrement_strong_count / from_raw+drop also give up handles:
+        // a quarter of the C03 workers include the handle-consuming ops
+        "C03" if variant % 4 == 3 => {
+            let mut g = GenCfg::new(Mode::Consume, ops);
+            g.weights.consume = 2;
+            g
+        }
+        // objects also stop existing through try_unwrap / make_mut: a quarter of
+        // the C08 workers include the handle-consuming ops
+        "C04" | "C08" if variant % 4 == 3 => {
+            let mut g = GenCfg::new(Mode::Consume, ops);
+            g.weights.consume = 2;
+            g
+        }
         "C03" | "C04" => GenCfg::new(if variant % 2 == 0 { Mode::Full } else { Mode::Safe }, ops),
         "C09" => GenCfg::new(Mode::Full, ops),
         "C13" => GenCfg::new(Mode::Elide, ops),
@@ -257,6 +271,7 @@ pub fn world_cfg(id: &str, mode: Mode) -> Cfg {
         exclude_known: mode == Mode::Elide && std::env::var_os("CX_NO_KF").is_none(),
         digest: id == "C09",
         strict_loopback: false,
+        shallow_clone: false,
     }
 }
 
